@@ -2,6 +2,7 @@
 C05 — Requests are served by priority, first-come-first-served among equals.
 -/
 import FsVerif.Proofs.PosExtra
+import FsVerif.Proofs.PrioReq
 namespace FsVerif.Props.C05
 open FsVerif PosStore
 
@@ -52,5 +53,22 @@ theorem before_of_equal_prio {a b : Tok} (h : a.prio = b.prio) : a.before b ↔ 
 /-- Non-vacuity: three waiting requests with priorities 1, -1, -1 are queued as (-1, first), (-1, second), (1). -/
 example : (run (init { cap := some 1 }) [.reservePut 0 0, .reservePut 1 1, .reservePut 2 (-1), .reservePut 3 (-1)]).putQ.map (·.id)
     = [2, 3, 1] := by decide
+
+
+/-! ### PriorityReqStore (put / get requests with priorities on a plain SimPy store) -/
+
+/-- request queues sorted by (priority, arrival) in every reachable state -/
+theorem prq_queues_sorted {s : PrioReq} (h : PrioReq.Reachable s) :
+    PrioReq.PSorted s.putQ ∧ QSorted s.getQ :=
+  ⟨(PrioReq.reachable_inv h).putS, (PrioReq.reachable_inv h).getS⟩
+
+/-- the trigger serves the head only, and the head precedes everything behind it -/
+theorem prq_head_is_min {s : PrioReq} (h : PrioReq.Reachable s) :
+    (∀ t x q, s.putQ = (t, x) :: q → ∀ w ∈ q, t.before w.1) ∧ (∀ t q, s.getQ = t :: q → ∀ w ∈ q, t.before w) :=
+  ⟨fun _ _ _ hq => PrioReq.trigPut_min (PrioReq.reachable_inv h) hq,
+   fun _ _ hq => PrioReq.trigGet_min (PrioReq.reachable_inv h) hq⟩
+
+example : ((PrioReq.run (PrioReq.init 1) [.get 1, .get 1, .get (-1), .put 0 ⟨5, 0⟩, .put 0 ⟨6, 0⟩, .settle]).getQ.map (·.id)) = [1] := by
+  decide
 
 end FsVerif.Props.C05
